@@ -980,6 +980,57 @@ def mc_instances(name, tier):
             fam.append({"N": 1, "K": 1, "nodes": [{"kind": "ps", "c": cap, "psR": R}],
                         "arrS": [[[6, 12]]], "svcS": [[[12, 24]]], "route": [tm([[0]])], "T": 84 if not big else 108})
         return [(fam, 5 if not big else 6)]
+    if name == "jockey":
+        fam = []
+        for pp in [0, 1]:
+            routers = [{"t": "leave", "jock": 2}, {"t": "leave"}]
+            fam.append({"N": 2, "K": 2, "prio": [0, 1], "nodes": [{"c": 1, "pp": pp}, {"c": 1, "qcap": INF}],
+                        "arrS": [[[2], [1]], [[], []]], "svcS": [[[2, 3], [3]], [[2], [1, 2]]],
+                        "patS": [[[1, 2], [2]], [[], [1]]],
+                        "route": [{"kind": "nr", "routers": copy.deepcopy(routers)} for _ in range(2)],
+                        "T": 12 if not big else 14})
+        return [(fam, 6 if not big else 7)]
+    if name == "ppsched":
+        fam = []
+        for pre, pp in [(0, 1), (1, 1), (2, 3), (3, 2)]:
+            fam.append({"N": 1, "K": 2, "prio": [0, 1],
+                        "nodes": [{"kind": "sched", "c": 0, "pp": pp, "sched": {"nums": [1, 0, 1], "ends": [3, 5, 8], "pre": pre, "off": 0}}],
+                        "arrS": [[[2, 3], [1]]], "svcS": [[[2], [3, 4]]], "route": [tm([[0]]), tm([[0]])],
+                        "T": 13 if not big else 16})
+        return [(fam, 7 if not big else 8)]
+    if name == "renegesched":
+        fam = []
+        for pre in [0, 1, 3]:
+            fam.append({"N": 1, "K": 1, "nodes": [{"kind": "sched", "c": 0, "sched": {"nums": [1, 0], "ends": [3, 6], "pre": pre, "off": 0}}],
+                        "arrS": [[[1, 2]]], "svcS": [[[2, 4]]], "patS": [[[1, 3]]], "route": [tm([[0]])],
+                        "T": 9 if not big else 12})
+        return [(fam, 4 if not big else 5)]
+    if name == "slotpre":
+        fam = []
+        for pre in [1, 2, 3]:
+            fam.append({"N": 1, "K": 1, "nodes": [{"kind": "slot", "c": 0,
+                        "slot": {"slots": [2, 3, 5], "sizes": [3, 1, 2], "cap": True, "pre": pre, "off": 0}}],
+                        "arrS": [[[1]]], "batchS": [[[1, 2]]], "svcS": [[[4, 6]]], "route": [tm([[0]])],
+                        "T": 11 if not big else 14})
+        return [(fam, 5 if not big else 6)]
+    if name == "jsqsched":
+        fam = []
+        for kind, tie in [("jsq", "order"), ("lb", "random")]:
+            routers = [{"t": kind, "dests": [2, 3], "tie": tie}, {"t": "leave"}, {"t": "leave"}]
+            fam.append({"N": 3, "K": 1, "nodes": [{"c": INF}, {"kind": "sched", "c": 0, "sched": {"nums": [2, 0, 1], "ends": [3, 5, 8], "pre": 0, "off": 0}},
+                                                   {"c": 1}],
+                        "arrS": [[[1, 2]], [[]], [[]]], "svcS": [[[0]], [[2, 4]], [[3]]],
+                        "route": [{"kind": "nr", "routers": routers}], "T": 8 if not big else 10})
+        return [(fam, 4 if not big else 5)]
+    if name == "infblock":
+        fam = []
+        fam.append({"N": 2, "K": 1, "nodes": [{"c": INF}, {"c": 1, "qcap": 0}], "arrS": [[[1, 2]], [[]]], "batchS": [[[1, 2]], [[]]],
+                    "svcS": [[[2]], [[2, 3]]], "route": [tm([[0, 4], [1, 0]])], "T": 7 if not big else 9})
+        fam.append({"N": 2, "K": 1, "nodes": [{"kind": "slot", "c": 0, "slot": {"slots": [2], "sizes": [2], "cap": False, "pre": 0, "off": 0}},
+                                              {"c": 1, "qcap": 0}],
+                    "arrS": [[[1]], [[]]], "batchS": [[[1, 2]], [[]]], "svcS": [[[1]], [[2, 3]]], "route": [tm([[0, 4], [0, 0]])],
+                    "T": 8 if not big else 10})
+        return [(fam, 5 if not big else 6)]
     if name == "pause":
         fam = []
         for c, splits in [(1, [2]), (2, [1, 3]), (1, [0, 2, 4])]:
